@@ -619,7 +619,7 @@ func (e *Engine) CompareUnder(impl *ImplSummary, ref *RefSummary, care bdd.Node)
 	// multisets agree the events can be matched one to one and the relative
 	// order of every such pair compared.
 	if onlyStateDiffs(diffs) {
-		for _, d := range orderDiffs(c, impl.Trace, ref.Trace) {
+		for _, d := range orderDiffs(c, impl.Trace, ref.Trace, care) {
 			diffs = append(diffs, Diff{Cat: "order", What: "bus-order", Msg: d})
 		}
 	}
@@ -643,7 +643,7 @@ func onlyStateDiffs(ds []Diff) bool {
 // the two traces.  Events are matched by kind, device, guard and argument
 // nodes (k-th occurrence to k-th occurrence); if the traces cannot be matched
 // that way nothing is reported here (the multiset comparison speaks then).
-func orderDiffs(c *dom.Ctx, impl, ref *dom.Trace) []string {
+func orderDiffs(c *dom.Ctx, impl, ref *dom.Trace, care bdd.Node) []string {
 	isBus := func(k string) bool { return strings.HasPrefix(k, "Memory.") || strings.HasPrefix(k, "IO.") }
 	isWrite := func(k string) bool { return k == isa.KindMemSet || k == isa.KindIOOut }
 	type ev struct {
@@ -658,9 +658,19 @@ func orderDiffs(c *dom.Ctx, impl, ref *dom.Trace) []string {
 			if !isBus(e.Kind) {
 				continue
 			}
-			k := fmt.Sprintf("%s|%s|%d", e.Kind, e.Dev, e.Guard)
+			// canonical within the care set: the guard restricted to it, the
+			// arguments where the guard holds
+			g := c.M.And(e.Guard, care)
+			if g == bdd.False {
+				continue
+			}
+			k := fmt.Sprintf("%s|%s|%d", e.Kind, e.Dev, g)
 			for _, a := range e.Args {
-				k += fmt.Sprint("|", []bdd.Node(a))
+				n := make([]bdd.Node, len(a))
+				for bi := range a {
+					n[bi] = c.M.And(a[bi], g)
+				}
+				k += fmt.Sprint("|", n)
 			}
 			occ[k]++
 			out = append(out, ev{fmt.Sprintf("%s#%d", k, occ[k]), e})
@@ -668,17 +678,21 @@ func orderDiffs(c *dom.Ctx, impl, ref *dom.Trace) []string {
 		return out
 	}
 	li, lr := list(impl), list(ref)
-	if len(li) != len(lr) {
-		return nil
-	}
 	posR := map[string]int{}
 	for i, x := range lr {
 		posR[x.key] = i
 	}
+	matched := len(li) == len(lr)
 	for _, x := range li {
 		if _, ok := posR[x.key]; !ok {
-			return nil // not the same events node for node
+			matched = false // not the same events node for node
 		}
+	}
+	if !matched {
+		// the multisets agree (the caller checked) but the events are split
+		// differently (one access under a merged guard against two under the parts):
+		// the order is then compared on the writes only, by address and value
+		return orderByCells(c, impl, ref, care)
 	}
 	var out []string
 	for i := 0; i < len(li); i++ {
@@ -687,7 +701,7 @@ func orderDiffs(c *dom.Ctx, impl, ref *dom.Trace) []string {
 			if !isWrite(a.e.Kind) && !isWrite(b.e.Kind) {
 				continue
 			}
-			g := c.M.And(a.e.Guard, b.e.Guard)
+			g := c.M.And(c.M.And(a.e.Guard, b.e.Guard), care)
 			if g == bdd.False {
 				continue
 			}
@@ -706,6 +720,31 @@ func orderDiffs(c *dom.Ctx, impl, ref *dom.Trace) []string {
 		}
 	}
 	return out
+}
+
+// orderByCells is the fallback of orderDiffs when the events of the two traces
+// do not correspond one to one: it cannot compare the order pair by pair, and
+// says so when a write and another access can touch one cell at all.
+func orderByCells(c *dom.Ctx, impl, ref *dom.Trace, care bdd.Node) []string {
+	for _, t := range []*dom.Trace{impl, ref} {
+		for i := range t.Events {
+			a := &t.Events[i]
+			if a.Kind != isa.KindMemSet {
+				continue
+			}
+			for j := range t.Events {
+				b := &t.Events[j]
+				if i == j || !strings.HasPrefix(b.Kind, "Memory.") || len(b.Args) == 0 || len(a.Args[0]) != len(b.Args[0]) {
+					continue
+				}
+				g := c.M.And(c.M.And(a.Guard, b.Guard), care)
+				if g != bdd.False && c.M.And(g, c.Eq(a.Args[0], b.Args[0])) != bdd.False {
+					return []string{"UNDECIDED: the bus accesses of implementation and reference are the same as multisets but are split into events differently, and a write can touch the cell of another access: their relative order could not be compared"}
+				}
+			}
+		}
+	}
+	return nil
 }
 
 // ArmResult is the verdict for one opcode-byte prefix.
